@@ -1158,6 +1158,49 @@ func (sb *vf18Sandbox) doApply(tokens []string) string {
 	return sb.observeVer(res, mon, ver, rm)
 }
 
+// Plan is the read-only dry run: whatever the tarball is, nothing observable may change
+func (sb *vf18Sandbox) doPlan(tokens []string) string {
+	kv := vf18KV(tokens)
+	var arts []vf18Art
+	for _, it := range strings.Split(kv["arts"], ",") {
+		f := strings.Split(it, ":")
+		p, _ := strconv.Atoi(f[0])
+		c, _ := strconv.Atoi(f[1])
+		arts = append(arts, vf18Art{p: p, c: c, mode: f[2], rc: f[3]})
+	}
+	tarPath, err := sb.buildTarball(kv, arts)
+	if err != nil {
+		return "harness-error"
+	}
+	sb.newFake(map[string]string{"fail": "-", "crash": "-", "ha": "ok", "hr": "ok", "ob": "-", "rob": "-"}, false)
+	res := "?"
+	func() {
+		defer func() {
+			if r := recover(); r != nil {
+				res = "panic:" + strings.ReplaceAll(fmt.Sprint(r), " ", "_")
+			}
+		}()
+		pr, err := sb.runner.Plan(context.Background(), tarPath)
+		switch {
+		case err != nil:
+			res = "plan:err"
+		case pr != nil && pr.To == vf18Ver(kv["to"]) && len(pr.Artifacts) == len(arts):
+			res = "plan:ok"
+		default:
+			res = "plan:ok?"
+		}
+	}()
+	// the staging directory must be gone again
+	if ents, err := os.ReadDir(filepath.Dir(tarPath)); err == nil {
+		for _, e := range ents {
+			if strings.HasPrefix(e.Name(), "osvbng-upgrade-") {
+				res += "!staging-left-behind"
+			}
+		}
+	}
+	return sb.observe(res, "-")
+}
+
 func (sb *vf18Sandbox) doRollback(tokens []string) string {
 	kv := vf18KV(tokens)
 	sb.newFake(kv, true)
@@ -1253,6 +1296,8 @@ func vf18RunCase(line, root string, key, wrong *ecdsa.PrivateKey, pubPEM []byte)
 			segs = append(segs, sb.doApply(op[1:]))
 		case "rollback":
 			segs = append(segs, sb.doRollback(op[1:]))
+		case "plan":
+			segs = append(segs, sb.doPlan(op[1:]))
 		case "clear":
 			sb.clearObstacles()
 			segs = append(segs, sb.observe("cleared", "-"))
